@@ -102,7 +102,7 @@ def sig_empty_word(w):
     return bool(w.get('empty_word_crash'))
 
 
-SIGNATURES = {'empty-word-crash': sig_empty_word}
+SIGNATURES = {}
 
 
 # ----------------------------------------------------------------------------------------------
